@@ -170,6 +170,7 @@ func (st *provState) walk(v ssa.Value, depth int) {
 	case *ssa.TypeAssert:
 		st.walk(x.X, depth)
 	case *ssa.Phi:
+		st.leaf("phi", x.Name(), v, nil)
 		for _, e := range x.Edges {
 			st.walk(e, depth)
 		}
